@@ -439,9 +439,18 @@ def _make_ref_evaluator():
             super().__init__(ctx)
             self.bad = []
 
+        naive = False
+
         def map_sum(self, expr):
             kids = expr.children[::-1] if self.reverse_operands else expr.children
-            return sum(self.rec(child) for child in kids)
+            if not self.naive:
+                return sum(self.rec(child) for child in kids)
+            # plain left-to-right accumulation, the way the C program does it (the builtin
+            # sum() compensates rounding errors since Python 3.12)
+            acc = 0
+            for child in kids:
+                acc = acc + self.rec(child)
+            return acc
 
         def map_product(self, expr):
             from pytools import product
@@ -828,9 +837,10 @@ def _has_wrapper(o, p):
     return bool(acc)
 
 
-def _ref_value(Ref, e, ctx, reverse=False):
+def _ref_value(Ref, e, ctx, reverse=False, naive=False):
     ev = Ref(ctx)
     ev.reverse_operands = reverse
+    ev.naive = naive
     try:
         v = ev(e)
     except (ZeroDivisionError, OverflowError, ValueError, TypeError) as ex:
@@ -853,9 +863,10 @@ def _expectation(Ref, e, kind, env, fenv, probes):
         fv = float(v)
         # ... and the value must not depend on the order in which sums and products are
         # accumulated (the sorting stringifier is free to re-associate them)
-        v3, bad3 = _ref_value(Ref, e, ctx, reverse=True)
-        if v3 is None or bad3 or abs(float(v3) - fv) > 1e-9 * max(1.0, abs(fv)):
-            v2 = None
+        for rev in (False, True):
+            v3, bad3 = _ref_value(Ref, e, ctx, reverse=rev, naive=True)
+            if v3 is None or bad3 or abs(float(v3) - fv) > 1e-9 * max(1.0, abs(fv)):
+                v2 = None
         if v2 is None or bad2 or abs(float(v2) - fv) > 1e-9 * max(1.0, abs(fv)):
             probes["discard_ill_conditioned"] = probes.get("discard_ill_conditioned", 0) + 1
             return ["illcond", None, True]
